@@ -703,7 +703,7 @@ fn c01_pawn_attacks(white: bool, max_pawns: u32) {
 }
 
 /// C01.expand: one Standard move per target bit, capture tag == enemy piece on the target, appended
-fn c01_expand(white: bool) {
+fn c01_expand(white: bool, max_targets: u32) {
     let x = any_disjoint();
     let a = any_aux(crate::verif_ref::vany());
     let board = Board::verif_from_raw(&x, &a);
@@ -711,7 +711,7 @@ fn c01_expand(white: bool) {
     let s: u8 = crate::verif_ref::vany();
     kani::assume(s < 64);
     let tg: u64 = crate::verif_ref::vany();
-    kani::assume(tg.count_ones() <= 27 && tg & own_occ == 0);
+    kani::assume(tg.count_ones() <= max_targets && tg & own_occ == 0);
     let mut pt: PieceTargetList = smallvec![];
     pt.push((Bitboard(rf::bit(s)), Bitboard(tg)));
     let mut moves = ChessMoveList::new();
@@ -741,7 +741,7 @@ fn c01_expand(white: bool) {
 /// C01.slider / A1.slider (k-piece shape): colour c has its king and up to 2 further pieces of symbolic
 /// kind on symbolic squares; the opponent's side is fully symbolic. Lookups are uninterpreted per-square
 /// functions R[sq], B[sq]. Emitted: (sq, (R|B|R∪B)[sq] & !own) for exactly c's rooks/bishops/queens.
-fn c01_slider(white: bool) {
+fn c01_slider(white: bool, extra: usize) {
     crate::move_generator::magic_table::kani_uf::init();
     let opp: [u64; 6] = crate::verif_ref::vany();
     let mut own = [0u64; 6];
@@ -749,7 +749,7 @@ fn c01_slider(white: bool) {
     kani::assume(ksq < 64);
     own[rf::K] = rf::bit(ksq);
     let mut i = 0;
-    while i < 2 {
+    while i < extra {
         let present: bool = crate::verif_ref::vany();
         let sq: u8 = crate::verif_ref::vany();
         let kind: u8 = crate::verif_ref::vany();
@@ -794,13 +794,13 @@ fn c01_slider(white: bool) {
 
 /// C01.leaper: generate_targets_from_precomputed_tables with uninterpreted tables K[sq], N[sq]:
 /// emitted == {(sq, table[sq] & !own) : sq holds that piece, set non-empty}; k-piece shape (<=3 of the piece)
-fn c01_leaper(white: bool, knight: bool) {
+fn c01_leaper(white: bool, knight: bool, max_n: u32) {
     let kt: [u64; 64] = crate::verif_ref::vany();
     let nt: [u64; 64] = crate::verif_ref::vany();
     let x = any_disjoint();
     let own = x.own(white);
     let which = if knight { rf::N } else { rf::K };
-    kani::assume(own[which].count_ones() <= 3);
+    kani::assume(own[which].count_ones() <= max_n);
     let a = any_aux(crate::verif_ref::vany());
     let board = Board::verif_from_raw(&x, &a);
     let t = Targets::verif_with_tables(kt, nt);
@@ -854,14 +854,20 @@ list_harness!(c01_pawn_targets_w, 66, c01_pawn_targets(true, 8));
 list_harness!(c01_pawn_targets_b, 66, c01_pawn_targets(false, 8));
 list_harness!(c01_pawn_attacks_w, 66, c01_pawn_attacks(true, 8));
 list_harness!(c01_pawn_attacks_b, 66, c01_pawn_attacks(false, 8));
-list_harness!(c01_expand_w, 30, c01_expand(true));
-list_harness!(c01_expand_b, 30, c01_expand(false));
-list_harness!(c01_slider_w, 66, c01_slider(true));
-list_harness!(c01_slider_b, 66, c01_slider(false));
-list_harness!(c01_leaper_knight_w, 66, c01_leaper(true, true));
-list_harness!(c01_leaper_knight_b, 66, c01_leaper(false, true));
-list_harness!(c01_leaper_king_w, 66, c01_leaper(true, false));
-list_harness!(c01_leaper_king_b, 66, c01_leaper(false, false));
+list_harness!(c01_expand_w, 30, c01_expand(true, 27));
+list_harness!(c01_expand4_w, 8, c01_expand(true, 4));
+list_harness!(c01_expand4_b, 8, c01_expand(false, 4));
+list_harness!(c01_expand_b, 30, c01_expand(false, 27));
+list_harness!(c01_slider_w, 66, c01_slider(true, 2));
+list_harness!(c01_slider1_w, 66, c01_slider(true, 1));
+list_harness!(c01_slider1_b, 66, c01_slider(false, 1));
+list_harness!(c01_slider_b, 66, c01_slider(false, 2));
+list_harness!(c01_leaper_knight_w, 66, c01_leaper(true, true, 3));
+list_harness!(c01_leaper_knight_b, 66, c01_leaper(false, true, 3));
+list_harness!(c01_leaper_king_w, 66, c01_leaper(true, false, 3));
+list_harness!(c01_leaper_king_b, 66, c01_leaper(false, false, 3));
+list_harness!(c01_leaper1_knight_w, 66, c01_leaper(true, true, 1));
+list_harness!(c01_leaper1_king_b, 66, c01_leaper(false, false, 1));
 
 // ---- A1.union: generate_attack_targets ORs the target sets of its four builders, all for the requested colour
 
